@@ -459,6 +459,89 @@ def block_of(stmt):
     return []
 
 
+def expand_aliases(fn_node, expr, depth=3):
+    """A copy of ``expr`` in which read-only attribute aliases are spelled out: a local that is assigned exactly once, from
+    an attribute chain (optionally indexed by constants) that starts at a name - `nodes = tos.nodes`,
+    `reserved = grammar.reserved_syntax_strings`, `stack = self.stack` - is replaced by that chain, unless the function
+    rebinds the final attribute somewhere (then the alias and the chain can differ)."""
+    import copy
+    assigns = {}
+    stored_attrs = set()
+    params = set()
+    a = getattr(fn_node, 'args', None)
+    if a is not None:
+        params = {x.arg for x in a.posonlyargs + a.args + a.kwonlyargs}
+    for n in walk_own(fn_node):
+        if isinstance(n, ast.Assign):
+            for t in n.targets:
+                for x in ast.walk(t):
+                    if isinstance(x, ast.Name) and isinstance(x.ctx, ast.Store):
+                        assigns.setdefault(x.id, []).append(n.value if (len(n.targets) == 1 and t is x) else None)
+                    if isinstance(x, ast.Attribute) and isinstance(x.ctx, ast.Store):
+                        stored_attrs.add(x.attr)
+        elif isinstance(n, (ast.AugAssign, ast.AnnAssign)):
+            for x in ast.walk(n.target):
+                if isinstance(x, ast.Name):
+                    assigns.setdefault(x.id, []).append(None)
+                if isinstance(x, ast.Attribute) and isinstance(x.ctx, ast.Store):
+                    stored_attrs.add(x.attr)
+        elif isinstance(n, (ast.For, ast.AsyncFor, ast.With, ast.AsyncWith, ast.comprehension)):
+            tg = [n.target] if hasattr(n, 'target') else [i.optional_vars for i in n.items if i.optional_vars is not None]
+            for t in tg:
+                for x in ast.walk(t):
+                    if isinstance(x, ast.Name):
+                        assigns.setdefault(x.id, []).append(None)
+
+    def chain(v):
+        e = v
+        while True:
+            if isinstance(e, ast.Attribute):
+                if e.attr in stored_attrs:
+                    return False
+                e = e.value
+            elif isinstance(e, ast.Subscript) and isinstance(e.slice, (ast.Constant, ast.UnaryOp)):
+                e = e.value
+            else:
+                break
+        return isinstance(e, ast.Name) and e is not v
+
+    class T(ast.NodeTransformer):
+        def visit_Name(self, n):
+            if isinstance(n.ctx, ast.Load) and n.id not in params:
+                vals = assigns.get(n.id, [])
+                if len(vals) == 1 and vals[0] is not None and chain(vals[0]):
+                    return copy.deepcopy(vals[0])
+            return n
+    out = copy.deepcopy(expr)
+    for _ in range(depth):
+        out = T().visit(out)
+    return out
+
+
+def xnorm(fn_node, expr, limit=400):
+    return norm(expand_aliases(fn_node, expr), limit)
+
+
+def reaching_values(fn_node, name_node):
+    """Values that can reach this use of a local: the nearest assignment that precedes it in its own or an enclosing
+    block; when that statement is compound (if / loop / try), every assignment to the name inside it."""
+    child = name_node
+    while child is not None and not isinstance(child, ast.stmt):
+        child = getattr(child, '_parent', None)
+    while child is not None and child is not fn_node:
+        blk = block_of(child)
+        idx = [b is child for b in blk].index(True) if blk else 0
+        for st in reversed(blk[:idx]):
+            vals = [a.value for a in ast.walk(st) if isinstance(a, ast.Assign)
+                    and any(isinstance(t, ast.Name) and t.id == name_node.id for t in a.targets)]
+            if vals:
+                return vals
+        child = getattr(child, '_parent', None)
+        while child is not None and not isinstance(child, ast.stmt) and child is not fn_node:
+            child = getattr(child, '_parent', None)
+    return []
+
+
 def qual_of(mod, node):
     """Qualified name of the innermost def/class enclosing ``node`` ('<module>' at top level)."""
     parts = []
